@@ -183,13 +183,23 @@ class InternalCompiler(Compiler):
         if dest in erets:
             erets.remove(dest)
 
-        # . Perform the CX between all args and dest
         erets = list(set(erets))
-        for i in erets:
-            qc.cx(i, dest)
 
-        # 4. Perform the MCX between all args
-        qc.mcx(erets, dest)
+        if len(erets) <= 2:
+            # . Perform the CX between all args and dest
+            for i in erets:
+                qc.cx(i, dest)
+
+            # 4. Perform the MCX between all args
+            qc.mcx(erets, dest)
+        else:
+            # a | b | c | ... = ~(~a & ~b & ~c & ...)
+            for i in erets:
+                qc.x(i)
+            qc.mcx(erets, dest)
+            qc.x(dest)
+            for i in erets:
+                qc.x(i)
 
         # 5. Mark ancilla every argument and return
         [qc.mark_ancilla(eret) for eret in erets]
